@@ -15,10 +15,12 @@ Proved for executions in which the 5 s unsubscribe wait gate never times out (`R
   unsubscribe was in progress, with whatever injected failures) and every operation has returned:
   no `c.channels` entry, no routing entry, no presence entry, not registered, both gauges back.
 
-With the timeout the statement is false for the model: `closed_settled_empty_fails_with_timeout` is a
-kernel-checked execution in which a presence entry survives.  That execution needs a goroutine switch
-between two lock regions of one `unsubscribe` call, which the gate-controlled harness cannot force, so it
-is a model-level counterexample only (no replay on the implementation).
+With the timeout the statement is false, for the model and for the implementation:
+* `closed_settled_empty_fails_with_timeout_replayed` — kernel-checked execution in which a presence entry
+  survives; the check replays it on the real code on every run (finding C05-1, `props/C05/findings.json`);
+* `closed_settled_empty_fails_with_timeout` — a second such execution, which needs a goroutine switch
+  between two lock regions of one `unsubscribe` call; the gate-controlled harness cannot force that, so it
+  is a model-level counterexample only.
 -/
 namespace CentrifugeVerif.SubProto
 
@@ -90,5 +92,10 @@ entry of the connection -/
 theorem closed_settled_empty_fails_with_timeout :
     (run State.init wPresenceSurvives).map (fun s => (s.status, settledB s, s.presence, c05Ok s)) =
       some (.closed, true, [0], false) := by decide
+
+/-- … and so does the execution the check replays on the implementation (finding C05-1) -/
+theorem closed_settled_empty_fails_with_timeout_replayed :
+    (run State.init wPresenceSurvivesAdopt).map (fun s => (s.status, settledB s, s.presence, s.hub.length, s.channels.length, c05Ok s)) =
+      some (.closed, true, [0], 0, 0, false) := by decide
 
 end CentrifugeVerif.SubProto
